@@ -195,6 +195,153 @@ theorem toMWEH_fresh_no_alias (m : List (Key × Str)) (h : Cells) :
     omega
   · rw [toMWEH_heap, List.getElem?_append_left ha]
 
+/-! ## the whole loop body -/
+
+theorem addrs_insert_sub (k : Key) (v : Option Nat) (m : HMWE) (a : Nat) (ha : a ∈ addrs (insert k v m)) :
+    a ∈ addrs m ∨ v = some a := by
+  induction m with
+  | nil =>
+    cases v with
+    | none => simp [insert, addrs] at ha
+    | some b => simp [insert, addrs] at ha; exact Or.inr (by rw [ha])
+  | cons p r ih =>
+    obtain ⟨k', v'⟩ := p
+    by_cases hk : k' = k
+    · simp only [insert, hk, if_true, addrs, List.filterMap_cons] at ha ⊢
+      cases v with
+      | none => cases v' <;> simp_all
+      | some b =>
+        simp only [List.mem_cons] at ha
+        rcases ha with rfl | ha
+        · exact Or.inr rfl
+        · cases v' <;> simp_all
+    · simp only [insert, hk, if_false, addrs, List.filterMap_cons] at ha ⊢
+      cases v' with
+      | none => exact ih ha
+      | some b =>
+        simp only [List.mem_cons] at ha ⊢
+        rcases ha with rfl | ha
+        · exact Or.inl (Or.inl rfl)
+        · rcases ih ha with h1 | h1
+          · exact Or.inl (Or.inr h1)
+          · exact Or.inr h1
+
+theorem noAlias_insert (k : Key) (v : Option Nat) (m : HMWE) (hn : NoAlias m) (hv : ∀ a, v = some a → a ∉ addrs m) :
+    NoAlias (insert k v m) := by
+  induction m with
+  | nil => cases v <;> simp [insert, NoAlias, addrs]
+  | cons p r ih =>
+    obtain ⟨k', v'⟩ := p
+    have hnr : NoAlias r := by
+      cases v' <;> simp_all [NoAlias, addrs]
+    have hvr : ∀ a, v = some a → a ∉ addrs r := fun a ha hm => hv a ha (by
+      cases v' <;> simp_all [addrs])
+    by_cases hk : k' = k
+    · simp only [insert, hk, if_true]
+      cases v with
+      | none => simpa [NoAlias, addrs] using hnr
+      | some b =>
+        simp only [NoAlias, addrs, List.filterMap_cons, List.nodup_cons]
+        exact ⟨hvr b rfl, hnr⟩
+    · simp only [insert, hk, if_false]
+      cases v' with
+      | none => simpa [NoAlias, addrs] using ih hnr hvr
+      | some b =>
+        simp only [NoAlias, addrs, List.filterMap_cons, List.nodup_cons] at hn ⊢
+        refine ⟨fun hmem => ?_, ih hnr hvr⟩
+        rcases addrs_insert_sub k v r b hmem with h1 | h1
+        · exact hn.1 h1
+        · exact hv b h1 (by simp [addrs])
+
+theorem noAlias_overrideBy (m o : HMWE) (hm : NoAlias m) (ho : NoAlias o) (hdis : ∀ a ∈ addrs o, a ∉ addrs m) :
+    NoAlias (overrideBy m o) ∧ ∀ a ∈ addrs (overrideBy m o), a ∈ addrs m ∨ a ∈ addrs o := by
+  induction o generalizing m with
+  | nil => exact ⟨hm, fun a ha => Or.inl ha⟩
+  | cons p r ih =>
+    obtain ⟨k, v⟩ := p
+    have hor : NoAlias r := by cases v <;> simp_all [NoAlias, addrs]
+    have hsub : ∀ a ∈ addrs r, a ∈ addrs ((k, v) :: r) := fun a ha => by cases v <;> simp_all [addrs]
+    have hv : ∀ a, v = some a → a ∉ addrs m := fun a ha => hdis a (by subst ha; simp [addrs])
+    have hvr : ∀ a, v = some a → a ∉ addrs r := fun a ha hmem => by
+      subst ha
+      simp only [NoAlias, addrs, List.filterMap_cons, List.nodup_cons] at ho
+      exact ho.1 hmem
+    have hins := noAlias_insert k v m hm hv
+    have hdis' : ∀ a ∈ addrs r, a ∉ addrs (insert k v m) := fun a ha hmem => by
+      rcases addrs_insert_sub k v m a hmem with h1 | h1
+      · exact hdis a (hsub a ha) h1
+      · exact hvr a h1 ha
+    obtain ⟨h1, h2⟩ := ih (insert k v m) hins hor hdis'
+    refine ⟨h1, fun a ha => ?_⟩
+    rcases h2 a ha with h3 | h3
+    · rcases addrs_insert_sub k v m a h3 with h4 | h4
+      · exact Or.inl h4
+      · exact Or.inr (by subst h4; simp [addrs])
+    · exact Or.inr (hsub a h3)
+
+/-- the loop over the env files: the accumulated map never aliases, and all its cells were allocated by the loop -/
+theorem loadEnvFilesH_no_alias (penv : List (Key × Str)) (fs : FS) (base : Nat) (efs : List EnvFile) (acc : HMWE) (h : Cells)
+    (r : HMWE × Cells) (hn : NoAlias acc) (hb : ∀ a ∈ addrs acc, base ≤ a ∧ a < h.length) (hbase : base ≤ h.length)
+    (hr : loadEnvFilesH penv fs efs acc h = .ok r) :
+    NoAlias r.1 ∧ (∀ a ∈ addrs r.1, base ≤ a ∧ a < r.2.length) ∧ ∃ ext, r.2 = h ++ ext := by
+  induction efs generalizing acc h with
+  | nil =>
+    simp only [loadEnvFilesH, Except.ok.injEq] at hr
+    subst hr
+    exact ⟨hn, hb, [], by simp⟩
+  | cons f rest ih =>
+    simp only [loadEnvFilesH] at hr
+    cases hl : loadEnvFile fs f (envChain penv (derefStr h acc)) with
+    | error e => rw [hl] at hr; cases hr
+    | ok vars =>
+      rw [hl] at hr
+      simp only at hr
+      obtain ⟨hna, hfresh, _⟩ := toMWEH_fresh_no_alias vars h
+      have hdis : ∀ a ∈ addrs (toMWEH vars h).1, a ∉ addrs acc := fun a ha hm => by
+        have := (hfresh a ha).1
+        have := (hb a hm).2
+        omega
+      obtain ⟨hn', hsub⟩ := noAlias_overrideBy acc (toMWEH vars h).1 hn hna hdis
+      have hlen : (toMWEH vars h).2 = h ++ vars.map Prod.snd := toMWEH_heap vars h
+      have hb' : ∀ a ∈ addrs (overrideBy acc (toMWEH vars h).1), base ≤ a ∧ a < (toMWEH vars h).2.length := fun a ha => by
+        rcases hsub a ha with h1 | h1
+        · have := hb a h1
+          rw [hlen]; simp only [List.length_append]; omega
+        · have := hfresh a h1
+          omega
+      obtain ⟨r1, r2, ext, hext⟩ := ih _ _ hn' hb' (by rw [hlen]; simp only [List.length_append]; omega) hr
+      exact ⟨r1, r2, vars.map Prod.snd ++ ext, by rw [hext, hlen, List.append_assoc]⟩
+
+/-- **resolveServiceEnvH_no_alias.**  The whole loop body of `WithServicesEnvironmentResolved` on the heap: if no two keys
+    of the service's `environment` shared a cell, no two keys of the resulting `Environment` do — `Resolve` and every
+    `ToMappingWithEquals` allocate cells of their own and `OverrideBy` only copies addresses of disjoint allocations —
+    and the cells that existed before the call are unchanged. -/
+theorem resolveServiceEnvH_no_alias (penv : List (Key × Str)) (fs : FS) (env : HMWE) (efs : List EnvFile) (h : Cells)
+    (r : HMWE × Cells) (hv : Valid h env) (hn : NoAlias env) (hr : resolveServiceEnvH penv fs env efs h = .ok r) :
+    NoAlias r.1 ∧ ∀ a, a < h.length → r.2[a]? = h[a]? := by
+  unfold resolveServiceEnvH at hr
+  cases hl : loadEnvFilesH penv fs efs [] (resolveH (fun k => lookup k penv) env h).2 with
+  | error e => rw [hl] at hr; cases hr
+  | ok q =>
+    rw [hl] at hr
+    simp only [Except.ok.injEq] at hr
+    subst hr
+    obtain ⟨⟨ext1, he1⟩, hval1, _⟩ := resolveH_shape (fun k => lookup k penv) env h hv
+    have hn1 := resolveH_no_alias (fun k => lookup k penv) env h hv hn
+    obtain ⟨hnq, hbq, ext2, he2⟩ := loadEnvFilesH_no_alias penv fs (resolveH (fun k => lookup k penv) env h).2.length efs []
+      (resolveH (fun k => lookup k penv) env h).2 q (by simp [NoAlias, addrs]) (fun a ha => by simp [addrs] at ha) (Nat.le_refl _) hl
+    have hdis : ∀ a ∈ addrs (resolveH (fun k => lookup k penv) env h).1, a ∉ addrs q.1 := fun a ha hm => by
+      obtain ⟨p, hp, hpa⟩ := List.mem_filterMap.1 ha
+      obtain ⟨k', v'⟩ := p
+      simp only at hpa
+      subst hpa
+      have := hval1 k' a hp
+      have := (hbq a hm).1
+      omega
+    refine ⟨(noAlias_overrideBy q.1 _ hnq hn1 hdis).1, fun a ha => ?_⟩
+    simp only
+    rw [he2, he1, List.append_assoc, List.getElem?_append_left ha]
+
 namespace Example
 /-- two value-less keys with different project-environment values, one key with a value in cell 0 -/
 def m0 : HMWE := [(['A'], none), (['K'], some 0), (['B'], none), (['C'], none)]
@@ -207,6 +354,13 @@ example : Valid h0 m0 ∧ NoAlias m0 := by
   rcases hm with ⟨_, rfl⟩
   decide
 example : resolveH look0 m0 h0 = ([(['A'], some 1), (['K'], some 0), (['B'], some 2), (['C'], none)], [['k'], ['a'], ['b']]) := by
+  decide
+/-- hypotheses of `resolveServiceEnvH_no_alias` on a concrete service: one env file `e` (two keys), `environment` with a
+    value-less key found in the project environment and a key with a value in cell 0; the result has four cells of its own -/
+def fsE : FS := { node := fun p => if p = ['e'] then some (.file [.assign ['X'] [.lit ['1']], .assign ['K'] [.lit ['2']]]) else none }
+example :
+    (resolveServiceEnvH [(['A'], ['a'])] fsE [(['A'], none), (['K'], some 0)] [⟨['e'], true, []⟩] [['k']]).toOption =
+      some ([(['X'], some 2), (['K'], some 0), (['A'], some 1)], [['k'], ['a'], ['1'], ['2']]) := by
   decide
 example : toMWEH [(['A'], ['1']), (['B'], ['2'])] [['k']] = ([(['A'], some 1), (['B'], some 2)], [['k'], ['1'], ['2']]) := by decide
 end Example
